@@ -13,7 +13,8 @@ CLAIMS = {
         text="Contract on the real Avoid::bends (helpers inlined), discharged by CBMC for all non-NaN doubles and all 16 direction pairs: "
              "estimate <= true free-space minimum number of bends from an independent search oracle (admissibility clause of C05). "
              "The bend count charged by estimatedCostSpecific is proved admissible against bends' contract (call-site preconditions checked); Polygon::simplify drops a route point "
-             "iff exactly collinear (tolerance 0 demanded at the call site), so bends survive into the display route. Optimality of the search is undecided residue.",
+             "iff exactly collinear (tolerance 0 demanded at the call site), so bends survive into the display route; estimatedCost never exceeds the estimate through any arrival candidate "
+             "(loop contract; costs as machine integers). Optimality of the search is undecided residue.",
         note=BASE_TB + "tools/minb.py search oracle. Residue NOT claimed: visibility graph contains an optimal path, pruning, axis-parallel segments, grid-oracle agreement.",
         tech="CBMC code contracts (goto-instrument --dfcc --enforce-contract) on verbatim C++ slices",
         ref="5/C05"),
@@ -44,7 +45,7 @@ CLAIMS["C20"] = dict(
     cat="proof",
     text="Value-determinism of the ordering kernels through which allocation addresses could reach results: CmpNodePos, compare_events, CompareConstraints, ANodeCmp are "
          "proved (all field values) to return a stated function of values and to evaluate no relational comparison of pointers to different objects (CBMC same-object check); "
-         "PseudoRandom::getNext is a function of the seed only; transposition symmetry of the A* turn-pruning block and translation invariance of bends (relational, two calls of the real code). "
+         "PseudoRandom::getNext is a function of the seed only and ConstrainedFDLayout::offsetDir reads/writes no generator state outside its own layout object (frame condition); transposition symmetry of the A* turn-pruning block and translation invariance of bends (relational, two calls of the real code). "
          "Whole-run bit-identity, scene symmetries of whole routes and permutation invariance of VPSC are undecided residue.",
     note=BASE_TB + "CmpNodePos precondition 'distinct nodes have distinct variable ids' is by inspection of the callers. Address tie-breaks in CmpVertInf, CmpVisEdgeRotation's "
          "fallback and ActionInfo::operator< (ConnectionPinChange) are listed as not under obligation.",
@@ -65,7 +66,7 @@ CLAIMS["C18"] = dict(
     cat="proof",
     text="Contracts on the real dialect::SepPair::transform/addSep/generateSeparationConstraint: the complete multiplication table of the symmetry group of the square "
          "(all doubles, gaps compared bitwise so -0.0 counts); commutation of transform with geometry record by record and the (a,b)/(b,a) negation equivalence of addSep, "
-         "bit-precise over an exact integer-valued domain; generateSeparationConstraint emits the record's meaning for all doubles. TGLF round trip is undecided residue.",
+         "bit-precise over an exact integer-valued domain; SepMatrix::getSepPair sets the reverse-retrieval flag for existing and new pairs alike; generateSeparationConstraint emits the record's meaning for all doubles. TGLF round trip is undecided residue.",
     note=BASE_TB + "tools/d4.py group table; the record meaning sat1() stated in the contract file; exact-domain restriction is part of the commutation statement; "
          "operator new substituted by malloc + real constructor (dfcc limitation).",
     tech="CBMC harness proofs and code contracts on verbatim slices; oracle = group table from 2x2 matrices + record semantics; case split over transform/axis/type",
@@ -75,7 +76,8 @@ CLAIMS["C09"] = dict(
     cat="proof",
     text="Kernel clauses of C09 under contract: moveCentreX/Y, moveMinX/Y keep width/height and the other axis; overlapX/Y > 0 iff open extents intersect; every generated "
          "separation (the six sep expressions of generateX/YConstraints) separates its pair under any placement satisfying it; removeoverlaps restores the x/y border statics "
-         "(projection fragment, two calls under different borders). 'No two rectangles overlap', acyclicity and fixed-rectangle movement are undecided residue.",
+         "(projection fragment, two calls under different borders); generateX/YConstraints set every variable's desired position to its rectangle's current centre (loop shells "
+         "for any number of rectangles + projected bodies). 'No two rectangles overlap', acyclicity and the size of a fixed rectangle's movement are undecided residue.",
     note=BASE_TB + "Scaled-integer mode (machine arithmetic treated as mathematical) for the size/separation jobs; projection fragment with a syntactic premise checked every run; "
          "exception path of removeoverlaps not covered.",
     tech="CBMC harness proofs on verbatim slices of inline members and expression/projection fragments; scaled-integer arithmetic mode; native multi-call replay",
@@ -103,12 +105,27 @@ CLAIMS["C17"] = dict(
     tech="CBMC bounded model checking of the verbatim template slice (concrete loop bounds, unwinding complete) against a Bellman-Ford oracle; native exhaustive replay",
     ref="5/C17")
 
+CLAIMS["C07"] = dict(
+    cat="other",
+    text="PARTIAL: only the per-constraint links of C07 are decided, by contract proofs; the end-to-end statement is not. (1) Translation: for each of the six kinds of user constraint "
+         "(boundary, alignment, separation, multi-separation, distribution, fixed-relative) the VPSC constraint generated for one arbitrary sub-constraint IS that constraint "
+         "(same two variables, gap bit for bit, equality where the kind demands it, creator back-pointer set), exactly one per sub-constraint, none skipped, only in the "
+         "constraint's dimension, invalid indices reported; guide-line variables are appended with their index as id. (2) project() constructs the solver over the lists it was "
+         "given, reads every coordinate back after solve(), each equal to that variable's finalPosition. (3) checkUnsatisfiable reports every flagged constraint as itself with "
+         "its maker. With C01 (normal return => every unflagged constraint satisfied) these give: after ONE projection every generated user constraint holds or is reported. "
+         "NOT decided: that run()/makeFeasible() END in such a projection (the descent step after project() in applyForcesAndConstraints, makeFeasible's rollback), the 1e-4 "
+         "tolerance, rectangle sizes, NaN/inf freedom, ConstrainedMajorizationLayout, PageBoundary/OrthogonalEdge constraints, virtual dispatch from setupVarsAndConstraints.",
+    note=BASE_TB + "Level 'other' because the property itself is not proved, only these links; loop bodies are proved for one arbitrary element and the loops for any length with the "
+         "body behind a counting contract (shell jobs); operator new substituted by malloc + the real constructor; exception model flag-and-return.",
+    tech="CBMC code contracts on verbatim slices of libcola/compound_constraints.cpp and colafd.cpp: whole function (separation), loop-body fragments + loop shells with loop "
+         "contracts (other kinds, project, checkUnsatisfiable); native replay on the real classes",
+    ref="5/C07")
+
 NA = {
     "C02": "Optimality of solve() is a KKT/convergence statement about an iterative active-set method over heap-allocated block trees in IEEE arithmetic; per-function facts need FP multiply/divide reasoning no installed back end finishes (DESIGN 3) and would not imply agreement with a QP oracle.",
     "C03": "'No route segment crosses an obstacle' is emergent from visibility-graph construction (std::list/std::set sweeps), A*, nudging and hyperedge improvement; only the leaf predicates are reachable and they are claimed under C16.",
     "C04": "Euclidean optimality needs completeness of the rotational sweep and soundness of region pruning for all paths - a global argument in real geometry that no per-function CBMC contract expresses without mirroring the code.",
     "C06": "A statement over histories of transactions compared with a fresh router; would need the whole router state as ghost state (std::list/set/map of heap objects), outside CBMC contracts' reach.",
-    "C07": "Satisfaction after run()/makeFeasible() depends on the descent loop ending in a projection, VPSC completeness (C01 residue) and translation routines over a virtual hierarchy the CBMC C++ front end rejects; the one provable link is C01.",
     "C08": "Non-overlap after iterative descent with an activation threshold and cluster recursion over std::list/set; no per-function statement implies it.",
     "C11": "The oracle for 'ends at the pin' is ShapeConnectionPin::position() itself; the property is about routing choosing and recording pins over histories of moves (std::set/list state).",
     "C12": "Tree-ness and terminal preservation are invariants of a pointer graph rewritten by recursive routines; needs inductive heap predicates CBMC contracts do not have.",
